@@ -64,6 +64,13 @@ fn parse_plan(v: &Value) -> Plan {
         }
     }
     p.no_quiesce = v.get("no_quiesce").and_then(Value::as_bool).unwrap_or(false);
+    if let Some(ds) = v.get("delays").and_then(Value::as_array) {
+        for d in ds {
+            if let (Some(k), Some(ms)) = (d[0].as_u64(), d[1].as_u64()) {
+                p.delays.insert(k as usize, ms);
+            }
+        }
+    }
     if let Some(vs) = v.get("only_verbs").and_then(Value::as_array) {
         p.only_verbs = vs.iter().filter_map(|x| x.as_str().map(String::from)).collect();
     }
@@ -165,18 +172,29 @@ where
         "multi1" => tokio::runtime::Builder::new_multi_thread().worker_threads(1).enable_all().build(),
         "multi2" => tokio::runtime::Builder::new_multi_thread().worker_threads(2).enable_all().build(),
         "multi8" => tokio::runtime::Builder::new_multi_thread().worker_threads(8).enable_all().build(),
+        // virtual time: timers fire as soon as the runtime is idle, so a plan's `delays` cost nothing
+        "paused" => tokio::runtime::Builder::new_current_thread().enable_all().start_paused(true).build(),
         _ => tokio::runtime::Builder::new_current_thread().enable_all().build(),
     }
     .expect("runtime");
     let sh2 = shared.clone();
     let mon2 = monitor.clone();
+    let paused = runtime == "paused";
     let res = catch_unwind(AssertUnwindSafe(|| {
         rt.block_on(async move {
             let fut = f(transport, mon2);
-            let out = tokio::select! {
-                r = fut => Outcome::Done(r),
-                _ = sh2.halt_notify.notified() => Outcome::Crashed,
-                _ = tokio::time::sleep(Duration::from_secs(60)) => Outcome::Timeout,
+            let out = if paused {
+                // no watchdog timer here: with a paused clock it would fire the moment the runtime waits for file I/O
+                tokio::select! {
+                    r = fut => Outcome::Done(r),
+                    _ = sh2.halt_notify.notified() => Outcome::Crashed,
+                }
+            } else {
+                tokio::select! {
+                    r = fut => Outcome::Done(r),
+                    _ = sh2.halt_notify.notified() => Outcome::Crashed,
+                    _ = tokio::time::sleep(Duration::from_secs(60)) => Outcome::Timeout,
+                }
             };
             if let (Outcome::Done(_), false) = (&out, no_quiesce) {
                 sh2.quiesce().await;
